@@ -261,8 +261,10 @@ class Persist:
                 attr = op['attr']
                 cfg = build_cfg(fn)
                 def none_fact(atom, truth, attr=attr):
-                    return truth is True and isinstance(atom, ast.Compare) and len(atom.ops) == 1 and \
-                        isinstance(atom.ops[0], (ast.Is, ast.Eq)) and is_self_attr(atom.left, attr) and \
+                    return isinstance(atom, ast.Compare) and len(atom.ops) == 1 and \
+                        ((isinstance(atom.ops[0], (ast.Is, ast.Eq)) and truth is True) or
+                         (isinstance(atom.ops[0], (ast.IsNot, ast.NotEq)) and truth is False)) and \
+                        is_self_attr(atom.left, attr) and \
                         isinstance(atom.comparators[0], ast.Constant) and atom.comparators[0].value is None
                 ge = cfg.edges_implying(none_fact)
                 if ge and not cfg.can_reach(cfg.entry, node, blocked_edges=ge):
